@@ -12,8 +12,13 @@ Read with `ast` from the source of `openpectus.engine.engine` and `openpectus.en
     (`PInterpreter.tick` iterating `tick_iterate_subticks`); emitted as
     (inner label, enclosing sub-call of `Engine.tick`), so their lock status is that of the enclosing sub-call;
   * the request entry points = the `Engine` methods that `EngineMessageHandlers` calls on `self.engine`; for each one
-    whether its whole body (after the docstring) is `with self._lock:` blocks, and which attributes of `self` it
-    touches outside the lock (calls of other `Engine` methods outside the lock are followed, depth <= 3).
+    which attributes of `self` it touches outside the lock (calls of other `Engine` methods are followed, depth <= 4)
+    and `bodyLocked` = part of it runs under the lock and nothing outside the lock touches the engine.  The lock may be
+    taken by `with self._lock:`, by `self._lock.acquire()` + `try/finally release()`, or by a decorator whose name
+    mentions lock / synchron; an early return on the arguments, logging or local computation in front of the lock is
+    accepted;
+  * `prologueShared` = attributes touched both by the part of `tick` outside the lock (including its error paths, e.g.
+    `read_process_image -> set_error_state`) and by a request entry point.
 """
 from __future__ import annotations
 
@@ -121,24 +126,64 @@ def _body(fn: ast.FunctionDef) -> list[ast.stmt]:
     return b
 
 
-def _touches_outside(fn: ast.FunctionDef, methods: dict[str, ast.FunctionDef], locks: set[str], depth: int = 0,
-                     seen: set[str] | None = None) -> set[str]:
+def _lock_regions(fn: ast.FunctionDef, locks: set[str]) -> tuple[list[ast.stmt], list[ast.stmt], bool]:
+    """(statements outside the lock, statements under it, whole function locked by a decorator).
+    Recognised: `with self._lock:`; `self._lock.acquire()` followed by `try: … finally: self._lock.release()`;
+    a decorator whose name mentions lock / synchron (then the whole body counts as locked)."""
+    for d in fn.decorator_list:
+        name = ast.unparse(d).lower()
+        if "lock" in name or "synchron" in name:
+            return [], _body(fn), True
+    outside: list[ast.stmt] = []
+    inside: list[ast.stmt] = []
+    body = _body(fn)
+    i = 0
+    while i < len(body):
+        st = body[i]
+        if _is_lock_with(st, locks):
+            inside.extend(st.body)  # type: ignore[attr-defined]
+        elif _is_lock_call(st, locks, "acquire") and i + 1 < len(body) and isinstance(body[i + 1], ast.Try) \
+                and any(_is_lock_call(f, locks, "release") for f in body[i + 1].finalbody):  # type: ignore[attr-defined]
+            inside.extend(body[i + 1].body)  # type: ignore[attr-defined]
+            i += 1
+        else:
+            outside.append(st)
+        i += 1
+    return outside, inside, False
+
+
+def _is_lock_call(st: ast.AST, locks: set[str], what: str) -> bool:
+    if isinstance(st, ast.Expr) and isinstance(st.value, ast.Call):
+        ch = _chain(st.value.func)
+        return bool(ch) and len(ch) == 3 and ch[0] == "self" and ch[1] in locks and ch[2] == what
+    return False
+
+
+def _touches(stmts: list[ast.AST], methods: dict[str, ast.FunctionDef], locks: set[str], skip_locked: bool,
+             depth: int = 0, seen: set[str] | None = None) -> set[str]:
+    """Attributes of `self` read or written by the statements; calls of other `Engine` methods are followed
+    (depth <= 4).  With `skip_locked`, code under the lock is left out."""
     seen = seen if seen is not None else set()
     out: set[str] = set()
 
     def walk(node: ast.AST) -> None:
-        if _is_lock_with(node, locks):
-            return                                  # everything below runs under the lock
+        if skip_locked and _is_lock_with(node, locks):
+            return
         if isinstance(node, ast.Attribute) and isinstance(node.value, ast.Name) and node.value.id == "self":
             if node.attr in methods:
-                if depth < 3 and node.attr not in seen:
+                if depth < 4 and node.attr not in seen:
                     seen.add(node.attr)
-                    out.update(_touches_outside(methods[node.attr], methods, locks, depth + 1, seen))
+                    fn = methods[node.attr]
+                    if skip_locked:
+                        outside, _, _ = _lock_regions(fn, locks)
+                        out.update(_touches(list(outside), methods, locks, True, depth + 1, seen))
+                    else:
+                        out.update(_touches(list(_body(fn)), methods, locks, False, depth + 1, seen))
             elif node.attr not in locks:
                 out.add(node.attr)
         for c in ast.iter_child_nodes(node):
             walk(c)
-    for st in _body(fn):
+    for st in stmts:
         walk(st)
     return out
 
@@ -194,16 +239,26 @@ def analyse() -> dict:
     locks = _locks(methods)
     lockset = set(locks)
     entries = []
+    request_touches: set[str] = set()
     for name in _entry_points():
         fn = methods.get(name)
         if fn is None:
             entries.append((name, False, ["<not a method of Engine>"]))
             continue
-        body = _body(fn)
-        locked = bool(body) and all(_is_lock_with(st, lockset) for st in body)
-        entries.append((name, locked, sorted(_touches_outside(fn, methods, lockset))))
+        outside, inside, decorated = _lock_regions(fn, lockset)
+        touched = sorted(_touches(list(outside), methods, lockset, True))
+        # locked = something runs under the lock and nothing outside it touches the engine (an early
+        # `if arg is None: return`, logging or a local computation in front of the lock does no harm)
+        locked = decorated or (bool(inside) and not touched)
+        entries.append((name, locked, touched))
+        request_touches |= _touches(list(_body(fn)), methods, lockset, False)
+    # the unlocked part of the tick (prologue, hardware tick, reading the process image, with their error paths)
+    tick_outside, _, _ = _lock_regions(methods["tick"], lockset)
+    prologue = _touches(list(tick_outside), methods, lockset, True)
+    shared = sorted((prologue & request_touches) - {"_running", "_tick_timer"})
     tick = _tick_calls(methods["tick"], lockset)
-    return {"locks": locks, "tick": tick, "nested": _nested(methods, [lab for (lab, _) in tick]), "entries": entries}
+    return {"locks": locks, "tick": tick, "nested": _nested(methods, [lab for (lab, _) in tick]), "entries": entries,
+            "prologue_shared": shared}
 
 
 def generate() -> dict:
@@ -230,6 +285,11 @@ def tickCalls : List (String × Bool) := [
 
 /-- yield points nested inside a sub-call of the tick: (inner label, enclosing sub-call) -/
 def nested : List (String × String) := [{nested}]
+
+/-- attributes of `Engine` that the part of `tick` outside the lock (prologue, hardware tick, reading the process image,
+their error paths) and the request entry points both touch: empty = the commutation hypothesis of
+`locked_request_serializes` is discharged from the source -/
+def prologueShared : List String := {lst(a["prologue_shared"])}
 
 /-- the `Engine` methods the aggregator's requests arrive at (called by `EngineMessageHandlers`) -/
 def entries : List Entry := [
